@@ -22,12 +22,17 @@ pub struct Case {
 
 /// M: mate in 3 plies with a unique first move K that mates that fast (every other move needs
 /// at least 5 plies, which a depth-4 search cannot see)
+/// or (one case in four) mate in 1 with a unique mating move: X is then a final position, so an earlier game whose
+/// only searched positions are X leaves nothing but the recorded root behind (no table entry, no answer)
 pub fn find_case(rng: &mut gen::R, tb: &Tablebases) -> Case {
+    let (n, after) = if rng.gen_bool(0.25) { (1u16, 0u16) } else { (3, 2) };
     loop {
         let p = random_three_man(rng, &[Kind::R, Kind::Q, Kind::R]);
-        let Some(Val::Win(3)) = tb.probe(&p) else { continue };
+        if tb.probe(&p) != Some(Val::Win(n)) {
+            continue;
+        }
         let legal = p.legal_moves();
-        let winners: Vec<&OMove> = legal.iter().filter(|m| matches!(tb.probe(&p.make(m)), Some(Val::Loss(2)))).collect();
+        let winners: Vec<&OMove> = legal.iter().filter(|m| tb.probe(&p.make(m)) == Some(Val::Loss(after))).collect();
         if winners.len() != 1 {
             continue;
         }
@@ -156,6 +161,9 @@ pub fn run_case(bin: &str, c: &Case, script: &[Cmd], rep: &mut Report) -> bool {
     }
     rep.eval(1);
     rep.count("histories", 1);
+    if c.x.legal_moves().is_empty() {
+        rep.count("histories_with_a_final_position_searched_earlier", 1);
+    }
     let text: Vec<String> = script.iter().map(cmd_text).collect();
     match final_answer(bin, script) {
         Ok((mate, mv, tail)) => {
